@@ -4,3 +4,7 @@ set -e
 cd /verif/govc
 mkdir -p /verif/bin
 GOFLAGS=-mod=vendor GOPROXY=off GOSUMDB=off GOTOOLCHAIN=local CGO_ENABLED=0 go build -o /verif/bin/govc .
+# goyacc (x/tools v0.29.0 cmd/goyacc, standard library only; source kept under /verif/tools/goyacc) for the
+# grammar obligation "parser.go is what goyacc generates from parser.go.y"
+cd /verif/tools/goyacc
+GOFLAGS=-mod=mod GOPROXY=off GOSUMDB=off GOTOOLCHAIN=local CGO_ENABLED=0 go build -o /verif/bin/goyacc .
